@@ -341,6 +341,16 @@ class CallGraph:
         if not (isinstance(call.func, ast.Name) and call.func.id == "getattr" and len(call.args) >= 2):
             return None
         target, key = call.args[0], call.args[1]
+        if isinstance(key, ast.Name) and key.id in fn.params and fn.cls is not None and fn.cls.qualname == "_griffe.extensions.base.Extensions":
+            # Extensions.call(event, ...): getattr(extension, event)(**kwargs) -> every hook of every in-repo extension
+            base = self.prog.classes.get("_griffe.extensions.base.Extension")
+            hooks: list[FunctionInfo] = []
+            if base is not None:
+                for c in [base, *self.prog.subclasses(base)]:
+                    for name, defs in c.methods.items():
+                        if name.startswith("on_"):
+                            hooks += defs
+            return hooks
         classes = self.type_of(fn, target)
         if not classes:
             return None
